@@ -28,6 +28,8 @@ W="$HERE/work/$H"
       echo "UNSUPPORTED derive helper does not build against $SRC (see $W/build.log):" >&2; grep -m5 -A6 '^error' "$W/build.log" >&2; rm -rf "$W/src"; exit 2
     fi
     cp "$HERE/target/debug/derive_expand" "$W/derive_expand"
+    # drop builds for other macro sources (mutation runs) that have not been touched for a while
+    find "$HERE/work" -mindepth 1 -maxdepth 1 -type d ! -name "$H" -mmin +30 -exec rm -rf {} + 2>/dev/null || true
   fi
 ) 9> "$HERE/work/.lock"
 exec "$W/derive_expand" "$@"
